@@ -59,6 +59,10 @@ CLAIMS = {
   text="Deductive proof (govc: weakest-precondition VCs over go/ssa of the real code, contracts in internal/imapnum/contracts_verif.go, discharged by z3/cvc5) that Range.Contains/Less/Merge equal their mathematical specification for all uint32 inputs incl. 2^32-1 and '*', that Set.search/Contains/Dynamic are correct on every canonical set (unbounded length), and that Range.append terminates and yields exactly the members in ascending order.",
   note="Trusted: go/ssa + govc translation, solvers. Slice parameters viewed at offset 0; signed int arithmetic mathematical where no overflow obligation is generated. insert/AddRange/Parse/String not yet under contract (listed in evidence as not covered).",
   design="§6 C15"),
+ "C16": dict(
+  text="Deductive proof, for every input, chunking (atEOF or not, any decoder state carried over) and buffer size, of the safety and refusal half of the modified UTF-7 codec: encoder.Transform, decoder.Transform, encode and decode never index outside a buffer (the single allocation in decode is proved large enough for padding, UTF-16 and UTF-8 bytes; EncodeRune/Encode/Decode destination sizes are call-site obligations) and their loops terminate; both transformers keep nDst/nSrc inside the buffers and report success only when the whole source was consumed; the encoder writes only printable ASCII and, unless at EOF, refuses to encode a run of non-ASCII bytes that reaches the end of the chunk; the decoder reports success only if every source byte was printable ASCII (illegal bytes, CR/LF inside a shift), never accepts an unterminated shift (error at EOF, ErrShortSrc otherwise), rejects a base64 shift that directly follows the base64 shift of the previous call (state carried across calls), returns to its initial state after a successful call at EOF, and decode yields no printable-ASCII byte (printable ASCII hidden in base64 is rejected); the only errors are the three sentinels.",
+  note="Assumed contracts of the standard library (encoding/base64 padded encoding lengths, alphabet and destination frame; utf8.DecodeRune/EncodeRune sizes and byte ranges; utf16.DecodeRune range), listed in evidence. Not covered (not claimed): decode(encode(s)) == s, validity of the decoder's UTF-8 output, the exact base64/UTF-16 bit arithmetic, '&' -> '&-' escaping in the output, rejection of back-to-back shifts inside one call, odd UTF-16 halves / lone surrogates as such (their bounds safety is proved), the callers in imapwire/imapserver.",
+  design="§6 C16"),
  "C20": dict(
   text="Deductive proof that the server's LIST matcher equals the RFC wildcard semantics for every name, pattern and hierarchy delimiter (unbounded lengths, multi-byte delimiters included): matchList(name, delim, pattern) == specMatch, the recursive definition '* matches any string, % any string without the delimiter, other bytes themselves' (induction over the pattern via the function's own contract, loop invariant over the backtracking position, two lemmas connecting chunk comparison and the existential over split points); MatchList resolves reference and pattern exactly as specified (absolute pattern drops the reference, missing trailing delimiter added, name must extend the reference) before matching.",
   note="strings.HasPrefix/TrimPrefix/HasSuffix/IndexAny and string(rune) carry assumed contracts (listed in evidence). Not covered: the in-memory back end's selection of which mailboxes are offered to MatchList, \\Noselect parents for '%', subscription filtering, LIST-EXTENDED options.",
